@@ -327,3 +327,121 @@ func (g *Gen) operandMatrix(d int) []Stmt {
 		&LocalFunc{X: fn + "m", F: &Func{Body: []Stmt{ret(num(val()), num(val()), num(val()))}}},
 		&CallS{E: &Call{F: &Paren{E: &Func{Body: []Stmt{local1(la, num(val())), local1(la+"s", str("lo")), &CallS{E: &Call{F: &Paren{E: inner}}}}}}}}}
 }
+
+// parenGoCall: `return (g(x))` with host callees: exactly one value comes back.
+func (g *Gen) parenGoCall(d int) []Stmt {
+	g.use("return-paren-go-call")
+	w1, w2, w3 := g.fresh("pw"), g.fresh("pw"), g.fresh("pw")
+	return []Stmt{
+		&LocalFunc{X: w1, F: &Func{Params: []string{"s"}, Body: []Stmt{ret(&Paren{E: &Call{F: idx(v("string"), "len"), Args: []Expr{v("s")}}})}}},
+		&LocalFunc{X: w2, F: &Func{Params: []string{"x"}, Body: []Stmt{ret(&Paren{E: &Call{F: idx(v("math"), "floor"), Args: []Expr{v("x")}}})}}},
+		&LocalFunc{X: w3, F: &Func{Vararg: true, Body: []Stmt{ret(&Paren{E: call("select", num(2), &Varargs{})})}}},
+		&Local{Names: []string{"a", "b"}, Es: []Expr{call(w1, str(words[1+g.R.Intn(6)]))}}, emit(v("a"), v("b")),
+		emit(call(w2, num(2.5)), num(9)), emit(call(w2, num(7.75))), emit(call("select", str("#"), call(w1, str("abc")))),
+		emit(call(w3, num(1), num(2), num(3))), emit(call("select", str("#"), call(w3, num(1), num(2), num(3))))}
+}
+
+// argCaptured: the compatibility arg table read through a closure and through `arg or x`.
+func (g *Gen) argCaptured(d int) []Stmt {
+	g.use("vararg-arg-captured")
+	mk, df := g.fresh("am"), g.fresh("ad")
+	return []Stmt{
+		&LocalFunc{X: mk, F: &Func{Vararg: true, Body: []Stmt{ret(&Func{Body: []Stmt{ret(idx(v("arg"), "n"), &Index{E: v("arg"), K: num(1)})}})}}},
+		emit(&Call{F: call(mk, num(1), num(2), num(3))}), emit(&Call{F: call(mk)}),
+		&LocalFunc{X: df, F: &Func{Vararg: true, Body: []Stmt{local1("t", &Or{A: v("arg"), B: &Table{Items: []TItem{{Kind: 1, Name: "n", E: num(-1)}}}}), ret(idx(v("t"), "n"))}}},
+		emit(call(df, num(5), num(6)), call(df))}
+}
+
+// closureIdentity: every evaluation of a function expression yields a new closure, also an
+// upvalue-free one; setfenv on one instance leaves the other alone.
+func (g *Gen) closureIdentity(d int) []Stmt {
+	g.use("closure-fresh-instance")
+	mk, f1, f2 := g.fresh("ci"), g.fresh("cf"), g.fresh("cf")
+	return []Stmt{set(v("GCI"), g.litInt()),
+		&LocalFunc{X: mk, F: &Func{Body: []Stmt{ret(&Func{Body: []Stmt{ret(v("GCI"))}})}}},
+		&Local{Names: []string{f1, f2}, Es: []Expr{call(mk), call(mk)}}, emit(bin("==", v(f1), v(f2)), bin("==", v(f1), v(f1))),
+		&CallS{E: call("setfenv", v(f1), &Table{Items: []TItem{{Kind: 1, Name: "GCI", E: str("env1")}}})},
+		emit(call(f1), call(f2), bin("==", call("getfenv", v(f1)), call("getfenv", v(f2)))),
+		local1("fs", &Table{}), &NumFor{X: "i", A: num(1), B: num(3), Body: []Stmt{set(&Index{E: v("fs"), K: v("i")}, &Func{Body: []Stmt{ret(num(1))}})}},
+		emit(bin("==", &Index{E: v("fs"), K: num(1)}, &Index{E: v("fs"), K: num(2)}))}
+}
+
+// nestedBlockClosure: the closure is created in a nested if/do/loop of the loop body and captures
+// a local of the loop body: each iteration still has its own instance.
+func (g *Gen) nestedBlockClosure(d int) []Stmt {
+	g.use("closure-in-nested-block-of-loop")
+	fs := g.fresh("nb")
+	mk := func(inner []Stmt) []Stmt {
+		switch g.R.Intn(3) {
+		case 0:
+			return []Stmt{&If{C: bin(">", v("i"), num(0)), Then: inner}}
+		case 1:
+			return []Stmt{&Do{Body: inner}}
+		default:
+			return []Stmt{&NumFor{X: "once", A: num(1), B: num(1), Body: inner}}
+		}
+	}
+	body := append([]Stmt{local1("x", bin("*", v("i"), num(10)))},
+		mk([]Stmt{set(&Index{E: v(fs), K: v("i")}, &Func{Body: []Stmt{set(v("x"), bin("+", v("x"), num(1))), ret(v("x"))}})})...)
+	var loop Stmt = &NumFor{X: "i", A: num(1), B: num(3), Body: body}
+	if g.R.Bool() {
+		loop = &Do{Body: []Stmt{local1("i", num(0)), &While{C: bin("<", v("i"), num(3)), Body: append([]Stmt{set(v("i"), bin("+", v("i"), num(1)))}, body...)}}}
+	}
+	return []Stmt{local1(fs, &Table{}), loop, g.clobber(),
+		emit(&Call{F: &Index{E: v(fs), K: num(1)}}, &Call{F: &Index{E: v(fs), K: num(2)}}, &Call{F: &Index{E: v(fs), K: num(3)}}, &Call{F: &Index{E: v(fs), K: num(1)}})}
+}
+
+// goCallHandler: __call handlers that are host functions, called normally and in tail position.
+func (g *Gen) goCallHandler(d int) []Stmt {
+	g.use("meta-call-host-handler")
+	o, p := g.fresh("gh"), g.fresh("gh")
+	return []Stmt{local1(o, call("setmetatable", &Table{Items: []TItem{{Kind: 1, Name: "x", E: g.litInt()}}}, &Table{Items: []TItem{{Kind: 1, Name: "__call", E: v("rawget")}}})),
+		local1(p, call("setmetatable", &Table{}, &Table{Items: []TItem{{Kind: 1, Name: "__call", E: v("select")}}})),
+		emit(&Call{F: v(o), Args: []Expr{str("x")}}), emit(&Call{F: &Paren{E: &Func{Body: []Stmt{ret(&Call{F: v(o), Args: []Expr{str("x")}})}}}}),
+		emit(call("pcall", v(o), str("x"))), emit(call("type", &Call{F: &Paren{E: &Func{Body: []Stmt{ret(&Call{F: v(p), Args: []Expr{num(1), num(7)}})}}}}))}
+}
+
+// nilCompareHandlers: comparison handlers whose first result is nil / nothing / a non-boolean.
+func (g *Gen) nilCompareHandlers(d int) []Stmt {
+	g.use("meta-compare-nil-result")
+	mt, a, b := g.fresh("nm"), g.fresh("na"), g.fresh("nb")
+	res := []Stmt{ret(&Nil{})}
+	switch g.R.Intn(3) {
+	case 1:
+		res = []Stmt{emit(str("h"))}
+	case 2:
+		res = []Stmt{ret(num(0))} // 0 is true in Lua
+	}
+	h := func(tag string) Expr {
+		return &Func{Params: []string{"x", "y"}, Body: append([]Stmt{emit(str(tag))}, res...)}
+	}
+	return []Stmt{local1(mt, &Table{Items: []TItem{{Kind: 1, Name: "__eq", E: h("eq")}, {Kind: 1, Name: "__lt", E: h("lt")}, {Kind: 1, Name: "__le", E: h("le")}}}),
+		local1(a, call("setmetatable", &Table{}, v(mt))), local1(b, call("setmetatable", &Table{}, v(mt))),
+		emit(bin("==", v(a), v(b)), bin("~=", v(a), v(b)), bin("<", v(a), v(b)), bin("<=", v(a), v(b)), bin(">", v(a), v(b)), bin(">=", v(a), v(b))),
+		&If{C: bin("<", v(a), v(b)), Then: []Stmt{emit(str("lt-true"))}, Else: []Stmt{emit(str("lt-false"))}, HasElse: true}}
+}
+
+// wrapErrorInsideCoroutine: a wrapped coroutine dies by error while its resumer is itself a
+// coroutine, which then inspects running()/status; and closures escaped from the dead one.
+func (g *Gen) wrapErrorInsideCoroutine(d int) []Stmt {
+	g.use("co-wrap-error-inside-coroutine")
+	outer, f := g.fresh("wo"), g.fresh("wf")
+	return []Stmt{&Local{Names: []string{outer, f}},
+		set(v(outer), call("coroutine.create", &Func{Body: []Stmt{
+			emit(call("pcall", call("coroutine.wrap", &Func{Body: []Stmt{local1("x", g.litInt()), set(v(f), &Func{Body: []Stmt{set(v("x"), bin("+", v("x"), num(1))), ret(v("x"))}}),
+				&CallS{E: call("error", &Table{Items: []TItem{{Kind: 1, Name: "code", E: num(3)}}})}}}))),
+			emit(bin("==", call("coroutine.running"), v(outer)), call("coroutine.status", v(outer))),
+			&CallS{E: call("coroutine.yield", num(1))}, emit(call("coroutine.status", v(outer))), ret(str("end"))}})),
+		emit(call("coroutine.resume", v(outer))), emit(call("coroutine.status", v(outer)), call("coroutine.running")),
+		emit(call("coroutine.resume", v(outer))), emit(call(f), call(f))}
+}
+
+// deadByFaultClosure: a coroutine dies by a runtime fault in the frame that owns a captured local.
+func (g *Gen) deadByFaultClosure(d int) []Stmt {
+	g.use("co-dead-by-fault-closure")
+	co, f := g.fresh("df"), g.fresh("dg")
+	return []Stmt{&Local{Names: []string{f}},
+		local1(co, call("coroutine.create", &Func{Body: []Stmt{local1("x", g.litInt()), set(v(f), &Func{Body: []Stmt{set(v("x"), bin("+", v("x"), num(1))), ret(v("x"))}}),
+			&CallS{E: call("coroutine.yield", call(f))}, local1("z", &Nil{}), ret(idx(v("z"), "y"))}})),
+		emit(call("coroutine.resume", v(co))), emit(call("coroutine.resume", v(co))), emit(call("coroutine.status", v(co))), g.clobber(), emit(call(f), call(f))}
+}
